@@ -87,5 +87,42 @@ def all_harnesses():
     return hs
 
 
+def main(argv):
+    """Z part (MIR -> SMT lemma, any capacity) first, then the Kani part; both must hold."""
+    import json, os, sys
+    from vlib import engine
+    sys.path.insert(0, os.path.join(engine.VERIF, "mir2smt"))
+    import lemma
+    tier = "quick"
+    for i, a in enumerate(argv):
+        if a == "--tier" and i + 1 < len(argv):
+            tier = argv[i + 1]
+    tier = os.environ.get("VERIF_TIER", tier) if "--tier" not in argv else tier
+    only = "--only" in argv or "--replay" in argv or "--list" in argv
+    z = None
+    if not only:
+        z = lemma.main(tier if tier in ("quick", "thorough") else "quick")
+        engine.log(f"Z lemma (MIR->SMT): {z['status']} {z['why'][:200]} ({len(z['queries'])} queries, {z['wall_s']}s)")
+    info = dict(INFO)
+    if z is not None:
+        unsat = [q for q in z["queries"] if q["answer"] == "unsat"]
+        info["extra"] = {"smt_lemma": {"status": z["status"], "why": z["why"], "functions_translated_from_MIR": z["functions"],
+                                       "smt_queries": len(z["queries"]), "answered_unsat": len(unsat),
+                                       "solvers_agree": z["status"] == "pass", "solver_wall_s": z["wall_s"],
+                                       "queries": z["queries"][:60],
+                                       "bounds": "any capacity, 64-bit words (cvc5, bit-vectors as integers); z3 second opinion at 16 (thorough: 32) bit; positions only, not memory or tags"}}
+    rc = engine.main_check("C01", harnesses, info, argv)
+    if z is not None and z["status"] == "fail":
+        path = os.path.join(engine.EVID, "replays", "C01-smt-lemma.json")
+        os.makedirs(os.path.dirname(path), exist_ok=True)
+        json.dump(z, open(path, "w"), indent=1)
+        print(f"VIOLATION property=C01 replay={path}")
+        return 1
+    if z is not None and z["status"] != "pass" and rc == 0:
+        print("INCONCLUSIVE property=C01 SMT lemma: " + z["why"][:200])
+        return 2
+    return rc
+
+
 def harnesses(tier, seed):
     return fold(select(all_harnesses(), tier, seed, 10), 4)
